@@ -1,8 +1,14 @@
 (* C08, tier 2 (mathcomp; any field F, any N, k_x, k_y, k_z): determinant form = least-squares residual form,
    invariance under invertible mixing of the conditioning columns, X/Y symmetry.  gram A = A^T A;
-   resid Z X = X - Z (Z^T Z)^-1 Z^T X;  ratio_mx X Y Z = det G_xz det G_yz / (det G_z det G_xyz). *)
-From mathcomp Require Import all_ssreflect all_algebra.
-From CE Require Import GaussMx.
+   resid Z X = X - Z (Z^T Z)^-1 Z^T X;  ratio_mx X Y Z = det G_xz det G_yz / (det G_z det G_xyz).
+   The second group (LIST MODEL, below) transports these theorems through LinAlgBridge.v / GaussBridge.v to the executable
+   list functions of Model/Gauss.v that the correspondence evaluates on the data the implementation ran on. *)
+From Coq Require Import QArith ZArith List.
+From mathcomp Require Import all_ssreflect all_fingroup all_algebra.
+From mathcomp Require Import ssrZ.
+From CE Require Import GaussMx GeneratorsMxBridge LinAlgBridge GaussBridge GaussResidBridge.
+From CE Require Model.Itv Model.Gauss.
+Close Scope Q_scope. Close Scope Z_scope.
 Set Implicit Arguments. Unset Strict Implicit. Unset Printing Implicit Defensive.
 Local Open Scope ring_scope.
 
@@ -41,3 +47,112 @@ Theorem C08_swap_xy : forall (F : fieldType) N kx ky kz (X : 'M[F]_(N, kx)) (Y :
   gram Z \in unitmx -> gram (resid Z Y) \in unitmx -> ratio_mx Y X Z = ratio_mx X Y Z.
 Proof. exact: swap_xy. Qed.
 Print Assumptions C08_swap_xy.
+
+(* ================================ LIST MODEL (refinement lists <-> 'M[rat]_(m, n)) ================================ *)
+(* Qrat : Q -> rat the field embedding;  mx_of_mat n m M : 'M[rat]_(n, m), entry (i, j) = Qrat (nth j (nth i M [::]) 0), so
+   mx_of_mat k k G is the leading principal k x k block of G;  wf_mat n m M: n rows of length m;
+   cmx N D n idx : 'M[rat]_(N, n), the CENTRED columns idx_0 .. idx_(n-1) of the sample D (N = number of rows). *)
+
+(* Gaussian elimination without pivoting (Model/Gauss.pivots / det_piv) computes the determinant: every n, every
+   well-shaped G; the product of the first k pivots is the k-th leading principal minor *)
+Theorem C08_elimination_on_lists_computes_the_determinant :
+  forall (n : nat) (G : seq (seq Q)), wf_mat n n G ->
+  (forall q, Gauss.det_piv G = Some q -> \det (mx_of_mat n n G) = Qrat q) /\
+  (forall ps, Gauss.pivots n G = Some ps -> forall k, (k <= n)%N -> \det (mx_of_mat k k G) = Qrat (Gauss.qprod (take k ps))).
+Proof. exact: det_piv_facts. Qed.
+Print Assumptions C08_elimination_on_lists_computes_the_determinant.
+
+(* ... it returns None exactly when some leading principal minor vanishes (the None case has no false negatives) *)
+Theorem C08_elimination_on_lists_fails_iff_a_leading_principal_minor_vanishes :
+  forall (n : nat) (G : seq (seq Q)), wf_mat n n G ->
+  ((exists q, Gauss.det_piv G = Some q) <-> (forall k, (k < n)%N -> \det (mx_of_mat k.+1 k.+1 G) != 0)) /\
+  (Gauss.det_piv G = None -> exists2 k, (k < n)%N & \det (mx_of_mat k.+1 k.+1 G) = 0).
+Proof. exact: det_piv_defined_facts. Qed.
+Print Assumptions C08_elimination_on_lists_fails_iff_a_leading_principal_minor_vanishes.
+
+(* the scatter matrix of the model is the Gram matrix of the centred columns (also every leading block) *)
+Theorem C08_scatter_matrix_on_lists_is_the_gram_matrix_of_the_centred_columns :
+  forall (N : nat) (D : seq (seq Q)) (n : nat) (idx : seq nat), D <> [::] -> size D = N -> (n <= size idx)%N ->
+  mx_of_mat n n (Gauss.gram D idx) = gram (cmx N D n idx).
+Proof. exact: gram_cmx. Qed.
+Print Assumptions C08_scatter_matrix_on_lists_is_the_gram_matrix_of_the_centred_columns.
+
+(* the determinant form EVALUATED ON LISTS is the mathcomp determinant form of the converted blocks, every N, k_x, k_y, k_z;
+   it is defined exactly when the centred columns X, Y, Z are jointly linearly independent; and it is the residual
+   (partial-covariance) form det S(X|Z) det S(Y|Z) / det S(XY|Z) of the converted blocks -- the identity that was only tested *)
+Theorem C08_determinant_form_on_lists_is_the_matrix_determinant_form :
+  forall (N : nat) (D : seq (seq Q)) (ix iy iz : seq nat), D <> [::] -> size D = N ->
+  let X := cmx N D (size ix) ix in let Y := cmx N D (size iy) iy in let Z := cmx N D (size iz) iz in
+  (forall q, Gauss.ratio_det D ix iy iz = Some q -> Qrat q = ratio_mx X Y Z) /\
+  ((exists q, Gauss.ratio_det D ix iy iz = Some q) <-> \rank (row_mx (row_mx X Y) Z) = (size ix + size iy + size iz)%N) /\
+  (forall q, Gauss.ratio_det D ix iy iz = Some q ->
+     Qrat q = \det (gram (resid Z X)) * \det (gram (resid Z Y)) / \det (gram (row_mx (resid Z X) (resid Z Y)))).
+Proof. exact: ratio_det_facts. Qed.
+Print Assumptions C08_determinant_form_on_lists_is_the_matrix_determinant_form.
+
+(* FULL X/Y symmetry of the determinant form on lists (every sample, every block size, definedness included): the statement
+   Properties/C08.v could only prove for scalars / under a hypothesis on the joint determinant *)
+Theorem C08_symmetric_in_X_and_Y_on_lists :
+  forall (D : seq (seq Q)) (ix iy iz : seq nat), Gauss.ratio_det D ix iy iz = Gauss.ratio_det D iy ix iz.
+Proof. exact: ratio_det_symmetric. Qed.
+Print Assumptions C08_symmetric_in_X_and_Y_on_lists.
+
+(* the order of the columns inside the blocks X, Y, Z is irrelevant (in particular any permutation of Z's columns) *)
+Theorem C08_column_order_inside_blocks_irrelevant_on_lists :
+  forall (D : seq (seq Q)) (ix iy iz ix' iy' iz' : seq nat), perm_eq ix' ix -> perm_eq iy' iy -> perm_eq iz' iz ->
+  Gauss.ratio_det D ix' iy' iz' = Gauss.ratio_det D ix iy iz.
+Proof. exact: ratio_det_perm. Qed.
+Print Assumptions C08_column_order_inside_blocks_irrelevant_on_lists.
+
+(* invariance ON LISTS under invertible linear mixing of the conditioning columns, value and definedness: D' has the X and
+   Y entries of D and, row by row, Z' column b = sum_a (Z column a) * M[a][b] for a list matrix M with non-zero determinant *)
+Theorem C08_invariant_under_invertible_mixing_of_Z_on_lists :
+  forall (D D' : seq (seq Q)) (ix iy iz ix' iy' iz' : seq nat) (M : seq (seq Q)), D <> [::] -> size D' = size D ->
+  same_cols D D' ix ix' -> same_cols D D' iy iy' -> mixed_cols D D' iz iz' M ->
+  \det (mx_of_mat (size iz) (size iz) M) != 0 ->
+  Gauss.ratio_det D' ix' iy' iz' = Gauss.ratio_det D ix iy iz.
+Proof. exact: ratio_det_mixing. Qed.
+Print Assumptions C08_invariant_under_invertible_mixing_of_Z_on_lists.
+
+(* the same for a concrete mixing operation on samples (mix_sample prepends the mixed block to every row) with M accepted by
+   the model's own determinant function *)
+Theorem C08_invariant_under_mix_sample :
+  forall (D : seq (seq Q)) (ix iy iz : seq nat) (M : seq (seq Q)) (m : Q), D <> [::] ->
+  wf_mat (size iz) (size iz) M -> Gauss.det_piv M = Some m ->
+  Gauss.ratio_det (mix_sample iz M D) (map (addn (size iz)) ix) (map (addn (size iz)) iy) (iota 0 (size iz)) =
+  Gauss.ratio_det D ix iy iz.
+Proof. exact: ratio_det_mix_sample_det_piv. Qed.
+Print Assumptions C08_invariant_under_mix_sample.
+
+(* the Gram-Schmidt residual vector of the model (resid (zbasis D iz) (col D i), the vector the residual forms are built
+   from) IS the least-squares residual v - C (C^T C)^-1 C^T v of the mathcomp development, C = (Z columns | constant column),
+   whenever these regressors are independent *)
+Theorem C08_model_residual_vectors_are_the_matrix_least_squares_residuals :
+  forall (N : nat) (D : seq (seq Q)) (iz : seq nat) (i : nat), size D = N -> gram (cz N D (size iz) iz) \in unitmx ->
+  (rvec N (Gauss.resid (Gauss.zbasis D iz) (Gauss.col D i)))^T = resid (cz N D (size iz) iz) (rvec N (Gauss.col D i))^T.
+Proof. exact: list_residual_is_resid. Qed.
+Print Assumptions C08_model_residual_vectors_are_the_matrix_least_squares_residuals.
+
+(* DETERMINANT FORM = RESIDUAL FORMS ON LISTS -- the identification that Properties/C08.v declares "tested, not proved for the
+   list model": whenever the determinant form of the model is defined, its block residual form det S(X|Z) det S(Y|Z) /
+   det S(XY|Z) (ratio_res, Gram-Schmidt residual vectors in Q^N) and its sequential residual form (ratio_seq) are defined and
+   return the same rational number -- every sample (the empty one included), every k_x, k_y, k_z.  (No converse: with
+   linearly dependent conditioning columns the residual forms can be defined where the determinant form is None.) *)
+Theorem C08_determinant_form_equals_both_residual_forms_on_lists :
+  forall (D : seq (seq Q)) (ix iy iz : seq nat) (q : Q), Gauss.ratio_det D ix iy iz = Some q ->
+  Gauss.ratio_res D ix iy iz = Some q /\ Gauss.ratio_seq D ix iy iz = Some q.
+Proof. exact: forms_agree. Qed.
+Print Assumptions C08_determinant_form_equals_both_residual_forms_on_lists.
+
+(* hence NON-NEGATIVITY holds for the determinant form itself in every dimension: ratio >= 1 (axiom-free) ... *)
+Theorem C08_determinant_form_ratio_at_least_one_in_every_dimension :
+  forall (D : seq (seq Q)) (ix iy iz : seq nat) (q : Q), Gauss.ratio_det D ix iy iz = Some q -> Qle (Qmake (Zpos xH) xH) q.
+Proof. exact: ratio_det_ge_1_Q. Qed.
+Print Assumptions C08_determinant_form_ratio_at_least_one_in_every_dimension.
+
+(* ... and the estimate 1/2 ln ratio is >= 0 over the reals *)
+Theorem C08_nonnegative_in_every_dimension_on_the_determinant_form :
+  forall (D : seq (seq Q)) (ix iy iz : seq nat) (q : Q), Gauss.ratio_det D ix iy iz = Some q ->
+  Qle (Qmake (Zpos xH) xH) q /\ Rdefinitions.Rle Rdefinitions.R0 (Itv.evalR nil (Gauss.cmi_expr q)).
+Proof. exact: ratio_det_ge_1. Qed.
+Print Assumptions C08_nonnegative_in_every_dimension_on_the_determinant_form.
